@@ -73,3 +73,11 @@ Theorem C02_sonic_one_combined_value :
     wval vs1 (hd 0 chal) (tl chal) 0 = wval vs2 (hd 0 chal) (tl chal) 0.
 Proof. exact @sonic_one_combined_value. Qed.
 Print Assumptions C02_sonic_one_combined_value.
+
+(* Hyrax: the verifier opens com_eval to the claimed value (defect d63271c, repaired): one proof, one value *)
+From PC Require Import Schemes.Hyrax Proofs.HyraxFacts.
+Theorem C02_hyrax_one_value :
+  forall (FO : FieldOps) (FL : FieldLaws FO) keylen point rows v1 v2 pf c, (1 <= keylen)%nat ->
+    h_check1 keylen point rows v1 pf c = Ok true -> h_check1 keylen point rows v2 pf c = Ok true -> v1 = v2.
+Proof. exact @h_check_one_value. Qed.
+Print Assumptions C02_hyrax_one_value.
